@@ -160,9 +160,11 @@ static void Handle(const json& c, vh::Report& r) {
     if (!(On("C01") || On("C02"))) continue;
     for (size_t k = 0; k < worlds.size(); ++k) {
       const auto& sv = c["vals"][k]; const auto& kv = c["kvals"][k];
-      if ((!sv["ok"].get<bool>() && sv["why"] == "limit") || (!kv["ok"].get<bool>() && kv["why"] == "limit")) { r.Count("skipped.spec-fuel"); continue; }
+      // recursions the model cannot finish within its fuel: the value is not compared, but the call must still come back
+      const bool noOracle = (!sv["ok"].get<bool>() && sv["why"] == "limit") || (!kv["ok"].get<bool>() && kv["why"] == "limit");
       ++r.checks; r.Count("evaluations");
       const auto res = worlds[k]->interp->Evaluate(text, syn);
+      if (noOracle) { r.Count("skipped.spec-fuel"); continue; }
       json w2 = wit; w2["interp"] = k;
       if (!res.has_value()) {
         bool unknown = false; json codes = json::array();
@@ -194,7 +196,7 @@ int main(int argc, char** argv) {
   vh::Args args(argc, argv);
   { std::stringstream ss(args.get("props")); std::string p; while (std::getline(ss, p, ',')) if (!p.empty()) g_props.insert(p); }
   Worlds();   // built once in the parent, inherited by the forked batch workers
-  vh::IsoOptions iso; iso.batch = 1000; iso.watchdogSeconds = 30;
+  vh::IsoOptions iso; iso.batch = 500; iso.watchdogSeconds = 10;
   iso.faultPropertyOf = [](const json& c) { return std::string(c["ty"].get<std::string>().rfind("BAD", 0) == 0 ? "C04" : "C02"); };
   return vh::Main(argc, argv, Handle, true, iso);
 }
